@@ -461,6 +461,18 @@ func Catalogue() []Edit {
 			}
 			return false
 		})
+		// two entries exchange the passwords inside their (otherwise equal) proxy urls
+		add(prefix+"/proxy-passwords-exchanged", func(s *Spec, t *rapid.T) bool {
+			rs := get(s)
+			if len(rs) < 2 {
+				return false
+			}
+			if rs[0].Proxy != ProxyFirst || rs[1].Proxy != ProxySecond {
+				return false
+			}
+			rs[0].Proxy, rs[1].Proxy = ProxySecond, ProxyFirst
+			return true
+		})
 		add(prefix+"/proxy_url", func(s *Spec, t *rapid.T) bool {
 			rs := get(s)
 			if len(rs) == 0 {
